@@ -217,9 +217,12 @@ static void enumerate_edits(mx_ep *rcv, int dtls, int aead, int nsmall)
             for (int c = 1; c <= 3; c++) { e = (edit_t) { ED_INSERT_CCS, r, 0, c }; run_edit(rcv, &e); }
         }
         /* CBC padding forgeries: every XOR delta on the byte that controls the padding length, and on the last byte */
-        if (aead == 0 && (r == 1 || r == 4 || (vf_thorough && small)) && R[r].len >= 48) {
+        if (aead == 0 && (r == 1 || r == 2 || r == 4 || (vf_thorough && small)) && R[r].len >= 48) {
             for (int d = 1; d < 256; d++) { e = (edit_t) { ED_XORBYTE, r, tot - 17, d }; run_edit(rcv, &e); }
             for (int d = 1; d < 256; d += vf_thorough ? 1 : 5) { e = (edit_t) { ED_XORBYTE, r, tot - 1, d }; run_edit(rcv, &e); }
+            /* padding CONTENT: the other bytes of the ciphertext block in front of the last one decide the plaintext bytes before the length byte - all of them padding when the
+               pad is long enough; a receiver that only looks at the length byte accepts these */
+            for (int p2 = tot - 32; p2 <= tot - 18; p2++) { static const int dd[] = { 0x01, 0x80, 0xff, 0x10 }; for (int i = 0; i < (vf_thorough ? 4 : 2); i++) { e = (edit_t) { ED_XORBYTE, r, p2, dd[i] }; run_edit(rcv, &e); } }
         }
         /* AEAD: every bit of explicit nonce (TLS 1.2 GCM) and of the tag for one record */
         if (aead && (r == 2 || (vf_thorough && small))) {
